@@ -46,6 +46,23 @@ def _derives_from_metadata(ctx, fn, operand, callers, depth=0):
     return False
 
 
+def _strip_wraps(s):
+    """the value inside constructor-like wrappers and borrows: Mutex::new(x), Arc::new(x), &x, *x"""
+    while True:
+        if s[0] == 'call' and len(s[2]) == 1 and last_seg(strip_generics(s[1])) in ('new', 'from', 'into'):
+            s = s[2][0]
+        elif s[0] == 'un' and s[1] in ('ref', 'deref', 'copy', 'move'):
+            s = s[2]
+        elif s[0] in ('ref', 'deref') and len(s) == 2:
+            s = s[1]
+        else:
+            return s
+
+
+def _short(s):
+    return 'chosen between several values' if s[0] == 'phi' else 'the result of %s' % last_seg(strip_generics(s[1])) if s[0] == 'call' else str(s)[:60]
+
+
 def run(ctx, tier):
     results = []
     F = ctx.facts
@@ -105,6 +122,23 @@ def run(ctx, tier):
                                'and maps a short or uninitialised file' % ('growth' if w['ev'] == 'G' else 'write', w['loc']), where=w['loc'], path=T.describe_path(p or [])))
         else:
             results.append(ok(rule, '%s at %s is dominated by a successful lock_exclusive' % (w['ev'], w['loc']), sites=1))
+    # once the image is on disk the file is a valid database that another process may lock and enter: the unlocked creator must not touch it again
+    pre = [w for w in Ws if w['node'] in reach_wo]
+    late = []
+    for w in pre:
+        if w['ev'] != 'W':
+            continue
+        after = T.reach({w['node']}, avoid=okn)
+        for g in pre:
+            if g['ev'] == 'G' and g['node'] in after and g['node'] != w['node'] and w['node'] not in T.reach({g['node']}, avoid=okn):
+                late.append((w, g))
+    for w, g in late[:1]:
+        results.append(bad(rule, '%s | G after the image is written, before the lock' % op.qual,
+                           'the creation branch of open sizes the file at %s after it has written the initial pages at %s and before it holds the lock: in between the file is a valid '
+                           'database that a second process can lock, map and commit into; the creator then changes its length underneath that process' % (g['loc'], w['loc']), where=g['loc']))
+    if pre and not late:
+        results.append(ok(rule, 'no growth of the new file follows its image write before the lock', sites=len(pre)))
+    results += c06.open_existing(ctx, rule='C13.open-existing')
     # ---- observe-after-lock: what open learns about the file (its length, its bytes) must be learnt while the lock is held
     rule = 'C13.observe-after-lock'
     Os = [e for e in T.events('O') if not e.get('summary')]
@@ -154,7 +188,21 @@ def run(ctx, tier):
                 if nme == 'file' and op_local(o) is not None:
                     locs, _ = du.slice_local(op_local(o))
                     kept |= locs
+        # ... and it is the only value that can be stored there: `if direct { reopen(path)? } else { file }` keeps the lock on a handle that is dropped
+        other = []
         if root is not None and root in kept:
+            recv = _strip_wraps(du.sym(t['args'][0]))
+            for bb, si, s in aggregates_of(fn, 'DBInner'):
+                for nme, o in zip(s['rv']['fields'], s['rv']['ops']):
+                    if nme == 'file':
+                        st = _strip_wraps(du.sym(o))
+                        if st != recv and st[0] in ('phi', 'call'):
+                            other.append((st, fn.loc(bb)))
+        if other:
+            results.append(bad(rule, '%s | DBInner.file may hold another File than the locked one' % fn.qual,
+                               'the File stored in DBInner.file at %s is not always the one on which lock_exclusive was called at %s (it is %s): on that path the lock lives on a handle '
+                               'that is dropped when open returns, and later remaps through the stored handle release it' % (other[0][1], e['loc'], _short(other[0][0])), where=other[0][1]))
+        elif root is not None and root in kept:
             results.append(ok(rule, 'the File locked at %s is the value stored in DBInner.file' % e['loc'], sites=1))
         elif root is not None and _moved_into_dbinner(ctx, fn, root):
             results.append(ok(rule, 'the File locked at %s is moved into the function that stores it in DBInner.file' % e['loc'], sites=1))
